@@ -15,7 +15,16 @@ class LibError(Violation):
     exception is an allowed outcome catch this explicitly."""
 
     def __init__(self, exc, where):
+        # keep only the type and text: holding the exception itself would keep its (possibly 1000-deep)
+        # __context__ chain alive, which Hypothesis' reporter cannot print without overflowing the stack
+        self.exc_type = type(exc).__name__
         self.exc = exc
+        try:
+            exc.__context__ = None
+            exc.__cause__ = None
+            exc.__traceback__ = None
+        except Exception:
+            pass
         self.where = where
         super().__init__("library raised %s at %s: %s" % (type(exc).__name__, where, str(exc)[:300]))
 
@@ -51,11 +60,13 @@ def sut(fn, *args, **kw):
     except (Violation, Skip, Inconclusive, HarnessError, KeyboardInterrupt, MemoryError):
         raise
     except RecursionError as e:
-        raise LibError(e, _lib_frame(e.__traceback__))
+        err = LibError(e, _lib_frame(e.__traceback__))
     except BaseException as e:  # noqa: B902 -- SystemExit from library code is a failure too
         if isinstance(e, (SystemExit, GeneratorExit)):
-            raise LibError(e, "?")
-        raise LibError(e, _lib_frame(e.__traceback__))
+            err = LibError(e, "?")
+        else:
+            err = LibError(e, _lib_frame(e.__traceback__))
+    raise err from None
 
 
 class _Alarm:
